@@ -55,6 +55,8 @@ type Case struct {
 	LateRes    bool   `json:"late_res"`    // the second resource is registered only after the requests were accepted
 	DelFaults  int    `json:"del_faults"`  // the first n DELETEs on undo_log fail
 	ConnFaults int    `json:"conn_faults"` // the first n connection attempts of the resource fail
+	// MixedCase: the second resource's id contains upper-case letters (schema Orders_EU)
+	MixedCase bool `json:"mixed_case,omitempty"`
 }
 
 type second struct {
@@ -62,23 +64,26 @@ type second struct {
 	srv    *memsql.Server
 	bare   *sql.DB
 	resID  string
+	schema string
 	opened bool
 }
 
-func newSecond() *second {
+func newSecond(schema string) *second {
 	n := atomic.AddInt64(&seq, 1)
 	s := &second{addr: fmt.Sprintf("10.1.%d.%d:3306", n/250, n%250+1)}
 	s.srv = memsql.NewServer("8.0.30")
-	s.srv.CreateSchema(atenv.Schema)
+	s.schema = schema
+	srvSchema[s.srv] = schema
+	s.srv.CreateSchema(schema)
 	memsql.Register(s.addr, s.srv)
 	var err error
-	if s.bare, err = sql.Open(memsql.DriverName, "u:p@tcp("+s.addr+")/"+atenv.Schema+"?interpolateParams=true&parseTime=true"); err != nil {
+	if s.bare, err = sql.Open(memsql.DriverName, "u:p@tcp("+s.addr+")/"+schema+"?interpolateParams=true&parseTime=true"); err != nil {
 		panic(err)
 	}
 	if _, err = s.bare.Exec(atenv.UndoLogDDL); err != nil {
 		panic(err)
 	}
-	s.resID = "u:p@tcp(" + s.addr + ")/" + atenv.Schema
+	s.resID = "u:p@tcp(" + s.addr + ")/" + schema
 	return s
 }
 
@@ -87,7 +92,7 @@ func (s *second) open() {
 		return
 	}
 	s.opened = true
-	db, err := sql.Open(atenv.ATDriver, "u:p@tcp("+s.addr+")/"+atenv.Schema+"?interpolateParams=true&parseTime=true")
+	db, err := sql.Open(atenv.ATDriver, "u:p@tcp("+s.addr+")/"+s.schema+"?interpolateParams=true&parseTime=true")
 	if err != nil {
 		panic(err)
 	}
@@ -101,9 +106,18 @@ func insertUndo(db *sql.DB, p Pair) error {
 	return err
 }
 
+var srvSchema = map[*memsql.Server]string{}
+
+func schemaOf(srv *memsql.Server) string {
+	if n, ok := srvSchema[srv]; ok {
+		return n
+	}
+	return atenv.Schema
+}
+
 func remaining(srv *memsql.Server) []string {
 	var out []string
-	for _, r := range srv.Rows(atenv.Schema, "undo_log") {
+	for _, r := range srv.Rows(schemaOf(srv), "undo_log") {
 		out = append(out, fmt.Sprintf("%v/%v", r["xid"], r["branch_id"]))
 	}
 	sort.Strings(out)
@@ -141,7 +155,11 @@ func runCase(c Case) *pt.Failure {
 		resIDs := []string{env.ResourceID}
 		var sec *second
 		if c.SecondRes {
-			sec = newSecond()
+			schema := atenv.Schema
+			if c.MixedCase {
+				schema = "Orders_EU"
+			}
+			sec = newSecond(schema)
 			if !c.LateRes {
 				sec.open()
 			}
@@ -305,7 +323,7 @@ func runCase(c Case) *pt.Failure {
 
 func renderRows(s *memsql.Server) []string {
 	var out []string
-	for _, r := range s.Rows(atenv.Schema, "undo_log") {
+	for _, r := range s.Rows(schemaOf(s), "undo_log") {
 		out = append(out, fmt.Sprintf("%s/%s", memsql.RenderValue(r["xid"]), memsql.RenderValue(r["branch_id"])))
 	}
 	sort.Strings(out)
@@ -359,6 +377,7 @@ func TestPropUndoLogDeletion(t *testing.T) {
 			ReceiveChanSize: rapid.IntRange(1, 16).Draw(rt, "chan"), Workers: rapid.IntRange(1, 4).Draw(rt, "workers"), WorkerBuffer: rapid.IntRange(1, 8).Draw(rt, "workerBuffer")}
 		c.SecondRes = rapid.IntRange(0, 3).Draw(rt, "second") == 0
 		c.LateRes = c.SecondRes && rapid.Bool().Draw(rt, "late")
+		c.MixedCase = c.SecondRes && rapid.Bool().Draw(rt, "mixedCase")
 		nres := 1
 		if c.SecondRes {
 			nres = 2
